@@ -15,6 +15,7 @@ pub mod c13;
 pub mod c14;
 pub mod c15;
 pub mod c16;
+pub mod c17;
 pub mod c18;
 pub mod c19;
 pub mod c20;
@@ -49,6 +50,7 @@ pub fn dispatch(id: &str, tier: Tier, seed: u64, replay: Option<&str>) -> i32 {
         "C14" => d!(c14),
         "C15" => d!(c15),
         "C16" => d!(c16),
+        "C17" => d!(c17),
         "C18" => d!(c18),
         "C19" => d!(c19),
         "C20" => d!(c20),
